@@ -19,6 +19,7 @@ func init() {
 			"PV-ORDER SetFromRecord: attribute maps (the container's labels) are applied after the line's well-known fields on every path",
 			"PV-WHOLE openLog: every successful return follows the ContainerLogs request",
 			"PV-WHOLE SetAttrs visits every attribute",
+			"FE-BOOL IsInstant",
 		},
 		NotDecided: []string{"the Docker daemon's own since/until semantics", "regexp engine semantics", "that strconv/time functions meet their contracts"},
 		Rules: func(r *Run) {
@@ -37,6 +38,7 @@ func init() {
 			ruleSetFromRecordOrder(r)
 			ruleOpenLogAlwaysAsks(r)
 			ruleSetAttrsWhole(r)
+			ruleIsInstant(r) // which window the daemon is asked for
 		},
 	})
 }
